@@ -2,11 +2,17 @@
 pub mod alphabet;
 pub mod c01;
 pub mod c02;
+pub mod c03;
 pub mod c04;
+pub mod c05;
 pub mod c06;
 pub mod c11;
 pub mod c12;
 pub mod c13;
+pub mod c14;
+pub mod c15;
+pub mod c16;
+pub mod c17;
 pub mod gen;
 
 use crate::util::Part;
@@ -20,11 +26,17 @@ pub fn run(property: &str, thorough: bool) -> Option<Vec<Part>> {
     match property {
         "C01" => Some(c01::run(thorough)),
         "C02" => Some(c02::run(thorough)),
+        "C03" => Some(c03::run(thorough)),
         "C04" => Some(c04::run(thorough)),
+        "C05" => Some(c05::run(thorough)),
         "C06" => Some(c06::run(thorough)),
         "C11" => Some(c11::run(thorough)),
         "C12" => Some(c12::run(thorough)),
         "C13" => Some(c13::run(thorough)),
+        "C14" => Some(c14::run(thorough)),
+        "C15" => Some(c15::run(thorough)),
+        "C16" => Some(c16::run(thorough)),
+        "C17" => Some(c17::run(thorough)),
         _ => None,
     }
 }
